@@ -44,6 +44,10 @@ static inline _Bool l0_is_key(const E *p) { return OBJ(p) == g_key_obj && OFF(p)
 static inline int64_t l0_rank_of(const E *p) {
   if (l0_is_key(p)) return g_key_rank;
   if (OBJ(p) == g_set_obj && OFF(p) >= g_set_off && (OFF(p) - g_set_off) / ESZ < g_set_n) return l0_rank_at((OFF(p) - g_set_off) / ESZ);
+#ifdef KEY_AT_END
+  /* emplace into the inline vector: the element just appended behind the old ones is the key */
+  if (OBJ(p) == g_set_obj && OFF(p) >= g_set_off && (OFF(p) - g_set_off) / ESZ == g_set_n) return g_key_rank;
+#endif
   g_unregistered_read = 1;
   L0_assert(0, "UNDECIDED: comparator applied to an object that is neither the key nor an element of the set");
   return nondet_int();
